@@ -2,6 +2,7 @@ package c16
 
 import (
 	"fmt"
+	"os"
 	"runtime/debug"
 	"sort"
 	"strconv"
@@ -10,6 +11,7 @@ import (
 
 	"github.com/zerx-lab/wordZero/pkg/document"
 
+	"wzverif/internal/gen"
 	"wzverif/internal/kit"
 )
 
@@ -73,8 +75,18 @@ func show(l obsLine) string {
 	return strconv.Quote(l.text)
 }
 
-// compare returns "" when the observed paragraphs are the expected text, else a description of the first difference.
-func compare(c *Case, exp string, got []obsLine) (diff string, imgDiff string) {
+// expEl is one expected paragraph: a text, or the picture of an image placeholder. A line without an image
+// placeholder is one text paragraph. A line with placeholders is the sequence of its text segments and pictures in
+// line order: a segment of length zero has nothing to show, a segment made of blanks only may or may not get a
+// paragraph of its own (optional), every other segment must appear unchanged between its neighbours.
+type expEl struct {
+	pic      bool
+	s        string // text, or the image name
+	optional bool
+	line     int
+}
+
+func expectedParagraphs(exp string) []expEl {
 	lines := strings.Split(exp, "\n")
 	allBlank := true
 	for _, l := range lines {
@@ -83,49 +95,117 @@ func compare(c *Case, exp string, got []obsLine) (diff string, imgDiff string) {
 		}
 	}
 	if allBlank {
-		lines = nil
+		return nil
 	}
-	n := len(lines)
-	if len(got) > n {
-		n = len(got)
-	}
-	for i := 0; i < n; i++ {
-		if i >= len(lines) {
-			return fmt.Sprintf("paragraph %d: unexpected extra paragraph %s (expected %d paragraphs, got %d)", i, show(got[i]), len(lines), len(got)), ""
-		}
-		want := lines[i]
-		if i >= len(got) {
-			return fmt.Sprintf("paragraph %d: missing, expected %q (expected %d paragraphs, got %d)", i, want, len(lines), len(got)), ""
-		}
-		g := got[i]
-		if g.other != "" {
-			return fmt.Sprintf("paragraph %d: body element %s, expected %q", i, g.other, want), ""
-		}
-		if strings.HasPrefix(want, imgMark) && strings.HasSuffix(want, "\x00") && strings.Count(want, "\x00") == 2 {
-			name := want[len(imgMark) : len(want)-1]
-			im := c.Data.Images[name]
-			if !g.pic {
-				return "", fmt.Sprintf("paragraph %d: expected the picture %q, got %s", i, name, show(g))
-			}
-			if g.text != "" || g.cx != strconv.Itoa(im.W*9525) || g.cy != strconv.Itoa(im.H*9525) {
-				return "", fmt.Sprintf("paragraph %d: expected picture %q (%dx%d px = %dx%d EMU, no text), got %s", i, name, im.W, im.H, im.W*9525, im.H*9525, show(g))
-			}
+	var out []expEl
+	for li, l := range lines {
+		if !strings.Contains(l, imgMark) {
+			out = append(out, expEl{s: l, line: li})
 			continue
 		}
-		if g.pic {
-			return fmt.Sprintf("paragraph %d: picture paragraph, expected text %q", i, want), ""
-		}
-		if blank(want) {
-			if strings.TrimSpace(g.text) != "" {
-				return fmt.Sprintf("paragraph %d: expected a blank line, got %q", i, g.text), ""
+		for l != "" {
+			i := strings.Index(l, imgMark)
+			if i < 0 {
+				break
 			}
-			continue
+			j := strings.Index(l[i+len(imgMark):], "\x00")
+			if j < 0 {
+				break
+			}
+			if seg := l[:i]; seg != "" {
+				out = append(out, expEl{s: seg, optional: blank(seg), line: li})
+			}
+			out = append(out, expEl{pic: true, s: l[i+len(imgMark) : i+len(imgMark)+j], line: li})
+			l = l[i+len(imgMark)+j+1:]
 		}
-		if g.text != want {
-			return fmt.Sprintf("paragraph %d: expected %q, got %q", i, want, g.text), ""
+		if l != "" {
+			out = append(out, expEl{s: l, optional: blank(l), line: li})
 		}
 	}
-	return "", ""
+	return out
+}
+
+func (c *Case) elMatches(e expEl, g obsLine) bool {
+	if g.other != "" {
+		return false
+	}
+	if e.pic {
+		im := c.Data.Images[e.s]
+		return g.pic && g.text == "" && g.cx == strconv.Itoa(im.W*9525) && g.cy == strconv.Itoa(im.H*9525)
+	}
+	if g.pic {
+		return false
+	}
+	if blank(e.s) {
+		return strings.TrimSpace(g.text) == ""
+	}
+	return g.text == e.s
+}
+
+// compare returns "" when the observed paragraphs are the expected text, else a description of the first difference
+// (diff: a text paragraph differs, imgDiff: a picture is not where / what it should be).
+func compare(c *Case, exp string, got []obsLine) (diff string, imgDiff string) {
+	els := expectedParagraphs(exp)
+	n, m := len(els), len(got)
+	// reach[i][j]: els[:i] can be laid over got[:j]
+	reach := make([][]bool, n+1)
+	for i := range reach {
+		reach[i] = make([]bool, m+1)
+	}
+	reach[0][0] = true
+	bi, bj := 0, 0 // the furthest state: most observed paragraphs explained, then most expected ones consumed
+	for i := 0; i <= n; i++ {
+		for j := 0; j <= m; j++ {
+			if !reach[i][j] {
+				continue
+			}
+			if j > bj || (j == bj && i > bi) {
+				bi, bj = i, j
+			}
+			if i < n && els[i].optional {
+				reach[i+1][j] = true
+			}
+			if i < n && j < m && c.elMatches(els[i], got[j]) {
+				reach[i+1][j+1] = true
+			}
+		}
+	}
+	if reach[n][m] {
+		return "", ""
+	}
+	i, j := bi, bj
+	for i < n && els[i].optional && (j >= m || !c.elMatches(els[i], got[j])) {
+		i++
+	}
+	nreq := 0
+	for _, e := range els {
+		if !e.optional {
+			nreq++
+		}
+	}
+	switch {
+	case i >= n:
+		return fmt.Sprintf("paragraph %d: unexpected extra paragraph %s (expected %d paragraphs, got %d)", j, show(got[j]), nreq, m), ""
+	case j >= m && els[i].pic:
+		return "", fmt.Sprintf("paragraph %d: missing, expected the picture %q of line %d (expected %d paragraphs, got %d)", j, els[i].s, els[i].line, nreq, m)
+	case j >= m:
+		return fmt.Sprintf("paragraph %d: missing, expected %q of line %d (expected %d paragraphs, got %d)", j, els[i].s, els[i].line, nreq, m), ""
+	}
+	e, g := els[i], got[j]
+	switch {
+	case g.other != "":
+		return fmt.Sprintf("paragraph %d: body element %s, expected %q", j, g.other, e.s), ""
+	case e.pic && !g.pic:
+		return "", fmt.Sprintf("paragraph %d: expected the picture %q (line %d), got %s", j, e.s, e.line, show(g))
+	case e.pic:
+		im := c.Data.Images[e.s]
+		return "", fmt.Sprintf("paragraph %d: expected picture %q (%dx%d px = %dx%d EMU, no text), got %s", j, e.s, im.W, im.H, im.W*9525, im.H*9525, show(g))
+	case g.pic:
+		return fmt.Sprintf("paragraph %d: picture paragraph, expected text %q (line %d)", j, e.s, e.line), ""
+	case blank(e.s):
+		return fmt.Sprintf("paragraph %d: expected a blank line, got %q", j, g.text), ""
+	}
+	return fmt.Sprintf("paragraph %d: expected %q, got %q", j, e.s, g.text), ""
 }
 
 // ---------------------------------------------------------------------------------------------
@@ -187,16 +267,18 @@ func (c *Case) renders() int {
 
 func run(c Case) *kit.Result {
 	res := &kit.Result{}
-	exp, ip := expected(&c)
+	exps, ip := expectedAll(&c)
+	order := c.renderList()
 	srcs := c.sources()
-	describe(res, &c, ip, exp)
+	sibs := c.sibSources()
+	describe(res, &c, ip, exps)
+	all := append(append([]string{}, srcs...), sibs...)
 
 	// T0: loading and rendering a well-formed template succeeds
 	res.Eval("C16.T0")
 	var eng *document.TemplateEngine
 	var err error
 	where := ""
-	last := tplName(len(srcs) - 1)
 	p, st := kit.Try(func() {
 		eng = document.NewTemplateEngine()
 		// the history: loads whose outcome the final phase must make irrelevant (errors of these loads are allowed)
@@ -206,64 +288,103 @@ func run(c Case) *kit.Result {
 				eng.LoadTemplate(tplName(ld.T), src)
 			}
 		}
-		// final phase: every template of the chain, base to child, with its final source
+		// final phase: every template of the chain, base to child, with its final source; then the siblings
 		for i, s := range srcs {
 			if _, err = eng.LoadTemplate(tplName(i), s); err != nil {
 				where = "LoadTemplate " + tplName(i)
 				return
 			}
 		}
+		for j, s := range sibs {
+			if s == "" {
+				continue
+			}
+			if _, err = eng.LoadTemplate(c.name(len(srcs)+j), s); err != nil {
+				where = "LoadTemplate " + c.name(len(srcs)+j)
+				return
+			}
+		}
 		where = ""
 	})
 	if p != nil {
-		res.Fail("C16.T0", "panic in %s: %v [%s]\ntemplate: %q", where, p, st, srcs)
+		res.Fail("C16.T0", "panic in %s: %v [%s]\ntemplate: %q", where, p, st, all)
 		return res
 	}
 	if err != nil {
-		res.Fail("C16.T0", "%s failed on a well-formed template: %v\ntemplate: %q", where, err, srcs)
+		res.Fail("C16.T0", "%s failed on a well-formed template: %v\ntemplate: %q", where, err, all)
 		return res
 	}
 
-	hasImg := strings.Contains(exp, imgMark)
-	for r, n := 0, c.renders(); r < n; r++ {
+	// the renders: the sequence, each once, then the last template of the chain (renders() times)
+	type step struct {
+		tpl, of, n int
+		exp        string
+	}
+	var steps []step
+	for i, k := range order {
+		n := 1
+		if i == len(order)-1 {
+			n = c.renders()
+		}
+		for r := 0; r < n; r++ {
+			steps = append(steps, step{tpl: k, of: r + 1, n: n, exp: exps[i]})
+		}
+	}
+	for si, sp := range steps {
+		name := c.name(sp.tpl)
+		hasImg := strings.Contains(sp.exp, imgMark)
 		var doc *document.Document
 		p, st := kit.Try(func() {
-			data := c.templateData(r%2 == 1)
+			rev := (sp.of-1)%2 == 1
+			if si < len(order)-1 {
+				rev = si%2 == 1
+			}
+			data := c.templateData(rev)
 			if c.Entry == 1 {
-				where = "RenderTemplateToDocument"
-				doc, err = eng.RenderTemplateToDocument(last, data)
+				where = "RenderTemplateToDocument(" + name + ")"
+				doc, err = eng.RenderTemplateToDocument(name, data)
 			} else {
-				where = "RenderToDocument"
-				doc, err = eng.RenderToDocument(last, data)
+				where = "RenderToDocument(" + name + ")"
+				doc, err = eng.RenderToDocument(name, data)
 			}
 		})
 		if p != nil {
-			res.Fail("C16.T0", "panic in %s: %v [%s]\ntemplate: %q", where, p, st, srcs)
+			res.Fail("C16.T0", "panic in %s: %v [%s]\ntemplate: %q", where, p, st, all)
 			return res
 		}
 		if err != nil || doc == nil {
-			res.Fail("C16.T0", "%s failed on a well-formed template: %v\ntemplate: %q", where, err, srcs)
+			res.Fail("C16.T0", "%s failed on a well-formed template: %v\ntemplate: %q", where, err, all)
 			return res
 		}
 
-		// T1: the paragraph texts are the reference text; T2: image lines are the pictures
+		// T1: the paragraph texts are the reference text; T2: image placeholders are the pictures
 		got := observe(doc)
 		res.Eval("C16.T1")
 		if hasImg {
 			res.Eval("C16.T2")
 		}
-		d, idiff := compare(&c, exp, got)
-		if d != "" {
-			var gs []string
-			for _, l := range got {
-				gs = append(gs, show(l))
-			}
-			res.Fail("C16.T1", "%s (render %d of %d)\ntemplates: %q%s\ndata: %s\nexpected text: %q\ngot paragraphs: [%s]", d, r+1, n, srcs, c.historyBrief(srcs), dataBrief(&c), strings.ReplaceAll(exp, "\x00", "¤"), strings.Join(gs, ", "))
-			return res
-		} else if idiff != "" {
-			res.Fail("C16.T2", "%s\ntemplates: %q", idiff, srcs)
-			return res
+		d, idiff := compare(&c, sp.exp, got)
+		if d == "" && idiff == "" {
+			continue
 		}
+		var gs []string
+		for _, l := range got {
+			gs = append(gs, show(l))
+		}
+		ctx := fmt.Sprintf("render of %s (%d of %d)", name, sp.of, sp.n)
+		if len(order) > 1 {
+			var ns []string
+			for _, k := range order {
+				ns = append(ns, c.name(k))
+			}
+			ctx = fmt.Sprintf("render %d of the sequence [%s] on one engine: %s", si+1, strings.Join(ns, " "), ctx)
+		}
+		if d != "" {
+			res.Fail("C16.T1", "%s (%s)\ntemplates: %q%s\ndata: %s\nexpected text: %q\ngot paragraphs: [%s]", d, ctx, all, c.historyBrief(srcs), dataBrief(&c), strings.ReplaceAll(sp.exp, "\x00", "¤"), strings.Join(gs, ", "))
+		} else {
+			res.Fail("C16.T2", "%s (%s)\ntemplates: %q\nexpected text: %q\ngot paragraphs: [%s]", idiff, ctx, all, strings.ReplaceAll(sp.exp, "\x00", "¤"), strings.Join(gs, ", "))
+		}
+		return res
 	}
 	return res
 }
@@ -350,7 +471,8 @@ func dataBrief(c *Case) string {
 }
 
 // describe sets labels, non-triviality and the structural shape of the case.
-func describe(res *kit.Result, c *Case, ip *interp, exp string) {
+func describe(res *kit.Result, c *Case, ip *interp, exps []string) {
+	exp := exps[len(exps)-1]
 	kinds := map[string]bool{}
 	var sk strings.Builder
 	hasElse, nested, depth3, braceLit, nlLit, ifInLoop, eachInIf, wrap := false, false, false, false, false, false, false, false
@@ -423,6 +545,18 @@ func describe(res *kit.Result, c *Case, ip *interp, exp string) {
 			skel(o.Body, 0)
 			sk.WriteString(")")
 		}
+	}
+	for _, sb := range c.Sibs {
+		sk.WriteString("/S" + strconv.Itoa(sb.P))
+		for _, o := range sb.Ov {
+			sk.WriteString("O" + o.Name + "(")
+			skel(o.Body, 0)
+			sk.WriteString(")")
+		}
+	}
+	sk.WriteString("/R")
+	for _, k := range c.Seq {
+		sk.WriteString(strconv.Itoa(k) + ",")
 	}
 	c.walk(func(n Node, d int, inIf bool) {
 		if n.K == KEach && inIf {
@@ -545,6 +679,84 @@ func describe(res *kit.Result, c *Case, ip *interp, exp string) {
 		}
 	}
 	lab(allBlank, "out:all-blank")
+	// render sequences: which earlier renders precede a render that resolves some block differently
+	order := c.renderList()
+	res.Label("seq:" + strconv.Itoa(len(order)-1))
+	lab(len(c.Sibs) > 0, "tpl:siblings")
+	seqDiffers, seqDefaultAfter, seqBaseAfter := false, false, false
+	resolve := func(k int, name string) string { // which template's text a block shows when template k is rendered
+		at := "t0"
+		for q := k; q > 0; q = c.parent(q) {
+			hit := false
+			for _, o := range c.overridesOf(q) {
+				if o.Name == name {
+					hit = true
+				}
+			}
+			if hit {
+				at = c.name(q)
+				break
+			}
+		}
+		return at
+	}
+	for j := 1; j < len(order); j++ {
+		for i := 0; i < j; i++ {
+			for _, n := range c.Base {
+				if n.K != KBlock {
+					continue
+				}
+				a, b := resolve(order[i], n.S), resolve(order[j], n.S)
+				if a != b {
+					seqDiffers = true
+					if b == "t0" {
+						seqDefaultAfter = true
+						if order[j] == 0 {
+							seqBaseAfter = true
+						}
+					}
+				}
+			}
+		}
+	}
+	lab(seqDiffers, "seq:block-resolved-differently-later")
+	lab(seqDefaultAfter, "seq:block-default-after-override")
+	lab(seqBaseAfter, "seq:base-after-derived")
+	// image placeholders inside a line of text
+	inlineImg, sameTwice := false, false
+	for _, e := range exps {
+		for _, l := range strings.Split(e, "\n") {
+			k := strings.Count(l, imgMark)
+			if k == 0 {
+				continue
+			}
+			rest, seen := l, map[string]bool{}
+			var text strings.Builder
+			for {
+				i := strings.Index(rest, imgMark)
+				if i < 0 {
+					text.WriteString(rest)
+					break
+				}
+				text.WriteString(rest[:i])
+				rest = rest[i+len(imgMark):]
+				z := strings.Index(rest, "\x00")
+				if z < 0 {
+					break
+				}
+				if seen[rest[:z]] {
+					sameTwice = true
+				}
+				seen[rest[:z]] = true
+				rest = rest[z+1:]
+			}
+			if !blank(text.String()) {
+				inlineImg = true
+			}
+		}
+	}
+	lab(inlineImg, "image:inside-text-line")
+	lab(sameTwice, "image:same-twice-on-line")
 	if c.Hazard != "" {
 		res.Count("hazard_cases", 1)
 	}
@@ -567,6 +779,9 @@ func describe(res *kit.Result, c *Case, ip *interp, exp string) {
 }
 
 func fixedCases() []Case {
+	if os.Getenv("VERIF_C16_NOFIXED") != "" { // development aid: measure what the generated cases alone detect
+		return nil
+	}
 	s := func(x string) Val { return Val{T: "s", S: x} }
 	return []Case{
 		// the README example (without else) and the documented loop variables
@@ -582,6 +797,18 @@ func fixedCases() []Case {
 			{K: KBlock, S: "summary", A: []Node{{K: KLit, S: "S0"}}}, {K: KLit, S: "\n"}, {K: KBlock, S: "content", A: []Node{{K: KLit, S: "C0 "}, {K: KVar, S: "city"}}}},
 			Children: [][]Override{{{Name: "header", Body: []Node{{K: KLit, S: "H1"}}}, {Name: "summary", Body: []Node{{K: KLit, S: "S1"}}}}, {{Name: "summary", Body: []Node{{K: KLit, S: "S2 "}, {K: KVar, S: "qty"}}}}},
 			Data:     Data{Vars: map[string]Val{"title": s("T"), "qty": {T: "i", S: "7"}}}, Entry: 1},
+		// one family on one engine: a child and two siblings redefine different blocks; every render of the sequence
+		// (sibling, base, other sibling, child, base again) shows the blocks of the template rendered
+		{Base: []Node{{K: KLit, S: "Head "}, {K: KVar, S: "title"}, {K: KLit, S: "\n"}, {K: KBlock, S: "header", A: []Node{{K: KLit, S: "default header of "}, {K: KVar, S: "title"}}}, {K: KLit, S: "\n"},
+			{K: KBlock, S: "footer", A: []Node{{K: KLit, S: "default footer"}}}},
+			Children: [][]Override{{{Name: "header", Body: []Node{{K: KLit, S: "child header "}, {K: KVar, S: "city"}}}}},
+			Sibs:     []Sib{{P: 0, Ov: []Override{{Name: "footer", Body: []Node{{K: KLit, S: "sibling footer"}}}}}, {P: 1, Ov: []Override{{Name: "footer", Body: []Node{{K: KLit, S: "grandchild footer"}}}}}},
+			Seq:      []int{2, 0, 3, 1, 0, 2},
+			Data:     Data{Vars: map[string]Val{"title": s("T")}}},
+		// image placeholders inside a line of text: the same picture twice, text before, between and after
+		{Base: []Node{{K: KLit, S: "Report for "}, {K: KVar, S: "owner"}, {K: KLit, S: "\nleft "}, {K: KImage, S: "logo"}, {K: KLit, S: " middle "}, {K: KVar, S: "owner"}, {K: KLit, S: " "}, {K: KImage, S: "logo"},
+			{K: KLit, S: " right\na "}, {K: KImage, S: "logo"}, {K: KLit, S: " b "}, {K: KImage, S: "chart"}, {K: KLit, S: " c\nend"}},
+			Data: Data{Vars: map[string]Val{"owner": s("Ann")}, Images: map[string]gen.Img{"logo": {Fmt: "png", W: 7, H: 5, Name: "logo"}, "chart": {Fmt: "png", W: 11, H: 8, Pat: 3, Name: "chart"}}}},
 	}
 }
 
@@ -589,7 +816,7 @@ func TestC16(t *testing.T) {
 	openKF = kit.OpenFindings("C16")
 	kit.Main(t, kit.Spec[Case]{
 		ID: "C16", Level: "exploration",
-		Rule: "template chain (1-3 levels) drawn as an AST from the documented grammar (literals incl. newlines/braces, variables, if / if-else, each with fields/this/@index/@first/@last/inner if/nested each to depth 3, blocks + extends, image lines) with typed data (strings incl. brace-bearing and multi-line, int, int64, float64, bool, nil; conditions true/false/absent; lists of maps / scalars, empty, absent), serialised to text, loaded on a fresh engine by a drawn load schedule (optional history: child before its base, an earlier version of a template later replaced, identical re-loads; then always the whole chain base-to-child with the final sources) and rendered (several times, data set in two orders, when a value names another supplied name); values with braces and whole directive tokens (placeholders naming other supplied variables, conditions, lists, fields, unknown names; {{/if}}, {{else}}, {{/each}}, ...) occur in every position and are judged exactly outside the (position, directive kind) classes of the open re-scan findings; non-trivial = >=2 directive kinds among {var, if, each, block, image} and (a loop over >=2 items or a conditional with an else branch) and the data has both a present and an absent name used by the template; distinct = distinct (AST skeleton incl. list names and literal classes, entry point, per-name data type/presence/list-length vector, set of schedule classes)",
+		Rule: "template family drawn as ASTs from the documented grammar: a chain of 1-3 levels (literals incl. newlines/braces, variables, if / if-else, each with fields/this/@index/@first/@last/inner if/nested each to depth 3, blocks + extends, image placeholders alone on a line and 1-3 of them - mostly the same image again - inside a line of literals and variables) and 0-2 sibling templates that extend any template of the family and redefine other subsets of its blocks; typed data (strings incl. brace-bearing and multi-line, int, int64, float64, bool, nil; conditions true/false/absent; lists of maps / scalars, empty, absent); serialised to text, loaded on a fresh engine by a drawn load schedule (optional history: child before its base, an earlier version of a template later replaced, identical re-loads; then always the whole chain base-to-child with the final sources, then the siblings); then a drawn sequence of 0-3 renders of any templates of the family (child then base, sibling then sibling, ...) followed by the render of the last chain template (several times, data set in two orders, when a value names another supplied name) - EVERY render is compared with the reference text of the template rendered; values with braces and whole directive tokens (placeholders naming other supplied variables, conditions, lists, fields, unknown names; {{/if}}, {{else}}, {{/each}}, ...) occur in every position and are judged exactly outside the (position, directive kind) classes of the open re-scan findings; non-trivial = >=2 directive kinds among {var, if, each, block, image} and (a loop over >=2 items or a conditional with an else branch) and the data has both a present and an absent name used by the template; distinct = distinct (AST skeleton incl. list names, literal classes, sibling overrides and render sequence, entry point, per-name data type/presence/list-length vector, set of schedule classes)",
 		Gen:  genCase, Run: run, Findings: findings, Fixed: fixedCases,
 		Assumptions: []string{
 			"names of variables, conditions, lists, item fields, blocks and images are pairwise distinct ASCII identifiers and none is this/else/index/first/last (the documents are silent on shadowing)",
@@ -600,10 +827,14 @@ func TestC16(t *testing.T) {
 			"floats are drawn through decimal texts of 1-3 fractional digits (last digit non-zero), so the expected rendering is that text and no formatting convention is assumed; nil renders as nothing",
 			"a line consisting only of blanks/tabs is compared as empty and an all-blank output as no paragraphs",
 			"every image placeholder has image data; {{this}} is only used over lists of scalars",
+			"a line with image placeholders is observed as the sequence of its text segments (each in a paragraph of its own, unchanged) and pictures in line order; a segment of blanks only may or may not get a paragraph",
+			"a render is judged by the template rendered and the data alone: the renders that precede it on the same engine (other templates of the same family, same data) carry no meaning",
 		},
 		MustSee: map[string]float64{"dir:var": 0.5, "dir:if": 0.3, "dir:if-else": 0.12, "dir:each": 0.4, "each:nested-ran": 0.04, "list:2+items": 0.3, "dir:block": 0.3, "chain:3": 0.08,
 			"dir:image": 0.05, "var:unknown": 0.2, "cond:absent": 0.08, "list:absent": 0.05, "data:float": 0.1, "lit:braces": 0.2, "data:braces": 0.25, "hazard:none": 0.7, "if:in-loop": 0.08,
 			"data:has-{{-judged-exactly": 0.2, "data:directive-token-judged-exactly": 0.12, "var:value-names-supplied-var": 0.05,
-			"sched:child-first": 0.08, "sched:base-replaced": 0.08, "sched:reload-same": 0.12, "sched:replaced": 0.15, "sched:none": 0.25},
+			"sched:child-first": 0.08, "sched:base-replaced": 0.08, "sched:reload-same": 0.12, "sched:replaced": 0.15, "sched:none": 0.25,
+			"tpl:siblings": 0.15, "seq:block-default-after-override": 0.06, "seq:base-after-derived": 0.04, "seq:block-resolved-differently-later": 0.12, "seq:0": 0.4,
+			"image:inside-text-line": 0.02, "image:same-twice-on-line": 0.012},
 	})
 }
